@@ -32,6 +32,7 @@ type edit struct {
 	del  int // bytes to delete at off
 	text string
 	seq  int // tie-break: keeps insertion order stable at equal offsets
+	late bool
 }
 
 type site struct {
@@ -57,6 +58,8 @@ type summary struct {
 	LockSites    int      `json:"lock_sites_rewritten"`
 	OnceSites    int      `json:"once_sites_rewritten"`
 	PoolSites    int      `json:"pool_sites_rewritten"`
+	WGSites      int      `json:"waitgroup_sites_rewritten"`
+	ChanSites    int      `json:"channel_sites_rewritten"`
 	Unmodelled   []string `json:"unmodelled_blocking"`
 	DiskMode     string   `json:"disk_mode"`
 	LoopVarWarns []string `json:"loopvar_capture_warnings"`
@@ -128,9 +131,9 @@ func main() {
 	}
 
 	info = &types.Info{
-		Types: map[ast.Expr]types.TypeAndValue{},
-		Uses:  map[*ast.Ident]types.Object{},
-		Defs:  map[*ast.Ident]types.Object{},
+		Types:      map[ast.Expr]types.TypeAndValue{},
+		Uses:       map[*ast.Ident]types.Object{},
+		Defs:       map[*ast.Ident]types.Object{},
 		Selections: map[*ast.SelectorExpr]*types.Selection{},
 	}
 	conf := types.Config{Importer: importer.ForCompiler(fset, "source", nil)}
@@ -218,6 +221,9 @@ func apply(fc *fileCtx) []byte {
 		if fc.edits[i].off != fc.edits[j].off {
 			return fc.edits[i].off < fc.edits[j].off
 		}
+		if fc.edits[i].late != fc.edits[j].late {
+			return !fc.edits[i].late // statements appended after a statement follow whatever closes it
+		}
 		return fc.edits[i].seq < fc.edits[j].seq
 	})
 	var out []byte
@@ -298,6 +304,48 @@ func syncMethod(sel *ast.SelectorExpr) string {
 	return ""
 }
 
+func isChan(e ast.Expr) bool {
+	tv, ok := info.Types[e]
+	if !ok || tv.Type == nil {
+		return false
+	}
+	_, ok = tv.Type.Underlying().(*types.Chan)
+	return ok
+}
+
+// isChanType reports whether the type expression e denotes a channel type.
+func isChanType(e ast.Expr) bool {
+	tv, ok := info.Types[e]
+	if !ok || tv.Type == nil || !tv.IsType() {
+		return false
+	}
+	_, ok = tv.Type.Underlying().(*types.Chan)
+	return ok
+}
+
+// syncRecv spells out the receiver of a sync method call: when the method is promoted from an
+// embedded field the implicit field path is made explicit (x.Wait() -> x.WaitGroup).  It also
+// reports whether that receiver expression is a pointer.
+func syncRecv(sel *ast.SelectorExpr, src string) (string, bool) {
+	se := info.Selections[sel]
+	t := se.Recv()
+	idx := se.Index()
+	for _, i := range idx[:len(idx)-1] {
+		if p, ok := t.Underlying().(*types.Pointer); ok {
+			t = p.Elem()
+		}
+		st, ok := t.Underlying().(*types.Struct)
+		if !ok {
+			break
+		}
+		f := st.Field(i)
+		src += "." + f.Name()
+		t = f.Type()
+	}
+	_, isPtr := t.Underlying().(*types.Pointer)
+	return src, isPtr
+}
+
 func isMap(e ast.Expr) bool {
 	tv, ok := info.Types[e]
 	if !ok || tv.Type == nil {
@@ -327,13 +375,17 @@ func sharedWrite(e ast.Expr) bool {
 }
 
 func rewriteFile(fc *fileCtx, pkg *types.Package) {
-	removed := map[string]int{} // import path -> uses rewritten away
+	removed := map[string]int{}       // import path -> uses rewritten away
+	leaveAlone := map[ast.Node]bool{} // channel operations that are the communication of a select clause
+	recv2 := map[ast.Node]bool{}      // receive expressions of the form v, ok := <-ch
+	srcOf := func(e ast.Expr) string { return string(fc.src[fc.off(e.Pos()):fc.off(e.End())]) }
 	curFunc := ""
 
 	var stmts func(list []ast.Stmt)
 	yieldAfter := func(s ast.Stmt) {
 		id := newSite("write", s.Pos(), curFunc)
 		fc.insert(s.End(), fmt.Sprintf("; verifsim.Yield(%d)", id))
+		fc.edits[len(fc.edits)-1].late = true
 	}
 	stmts = func(list []ast.Stmt) {
 		for _, s := range list {
@@ -354,6 +406,8 @@ func rewriteFile(fc *fileCtx, pkg *types.Package) {
 				if sharedWrite(x.X) {
 					yieldAfter(x)
 				}
+			case *ast.SendStmt, *ast.GoStmt:
+				yieldAfter(s)
 			case *ast.ExprStmt:
 				// a call used as a statement is executed for its effect (delete, Store, Put,
 				// Write, Unlock, ...): a scheduling point after it
@@ -393,12 +447,36 @@ func rewriteFile(fc *fileCtx, pkg *types.Package) {
 		case *ast.SelectStmt:
 			sum.SelectStmts++
 			sum.Unmodelled = append(sum.Unmodelled, "select")
+			for _, cl := range x.Body.List {
+				if cc, ok := cl.(*ast.CommClause); ok && cc.Comm != nil {
+					ast.Inspect(cc.Comm, func(m ast.Node) bool {
+						switch y := m.(type) {
+						case *ast.SendStmt:
+							leaveAlone[y] = true
+						case *ast.UnaryExpr:
+							if y.Op == token.ARROW {
+								leaveAlone[y] = true
+							}
+						case *ast.FuncLit:
+							return false
+						}
+						return true
+					})
+				}
+			}
 		case *ast.ForStmt:
 			id := newSite("loop", x.Body.Lbrace, curFunc)
 			fc.insert(x.Body.Lbrace+1, fmt.Sprintf("verifsim.Yield(%d);", id))
 		case *ast.RangeStmt:
 			id := newSite("loop", x.Body.Lbrace, curFunc)
 			fc.insert(x.Body.Lbrace+1, fmt.Sprintf("verifsim.Yield(%d);", id))
+			if isChan(x.X) {
+				// for v := range ch  ->  for v := range verifsim.RangeChan(ch)
+				sum.ChanUses++
+				sum.ChanSites++
+				fc.insert(x.X.Pos(), "verifsim.RangeChan(")
+				fc.insert(x.X.End(), ")")
+			}
 			if isMap(x.X) {
 				mid := newSite("maprange", x.X.Pos(), curFunc)
 				sum.MapRange++
@@ -407,22 +485,110 @@ func rewriteFile(fc *fileCtx, pkg *types.Package) {
 			}
 		case *ast.GoStmt:
 			sum.GoStmts++
-			sum.Unmodelled = append(sum.Unmodelled, "go statement")
-			// go f(a, b)  ->  verifsim.Go(func() { f(a, b) })
-			fc.replace(x.Go, x.Go+2, "verifsim.Go(func() {")
-			fc.insert(x.Call.End(), "})")
+			// go f(a, b)  ->  { __vf := f; __v0 := a; __v1 := b; verifsim.Go(func() { __vf(__v0, __v1) }) }
+			// (function value and arguments are evaluated by the parent, as the language requires)
+			simple := false
+			if id, ok := ast.Unparen(x.Call.Fun).(*ast.Ident); ok {
+				if _, isB := info.Uses[id].(*types.Builtin); isB {
+					simple = true
+				}
+			}
+			if tv, ok := info.Types[x.Call.Fun]; ok && tv.IsType() {
+				simple = true
+			}
+			for _, a := range x.Call.Args {
+				if tv, ok := info.Types[a]; ok {
+					if _, isTuple := tv.Type.(*types.Tuple); isTuple {
+						simple = true
+					}
+				}
+			}
+			if simple {
+				fc.replace(x.Go, x.Go+2, "verifsim.Go(func() {")
+				fc.insert(x.Call.End(), "})")
+				break
+			}
+			fc.replace(x.Go, x.Call.Fun.Pos(), "{ __vf := ")
+			var names []string
+			prevEnd := x.Call.Fun.End()
+			for i, a := range x.Call.Args {
+				tv := info.Types[a]
+				if tv.Value != nil || tv.IsNil() {
+					// a constant (or nil) keeps its place in the call: it has no evaluation time
+					names = append(names, srcOf(a))
+					fc.replace(prevEnd, a.End(), "; ")
+				} else {
+					names = append(names, fmt.Sprintf("__v%d", i))
+					fc.replace(prevEnd, a.Pos(), fmt.Sprintf("; __v%d := ", i))
+				}
+				prevEnd = a.End()
+			}
+			call := strings.Join(names, ", ")
+			if x.Call.Ellipsis.IsValid() {
+				call += "..."
+			}
+			fc.replace(prevEnd, x.Call.End(), "; verifsim.Go(func() { __vf("+call+") }) }")
+		case *ast.AssignStmt:
+			if len(x.Lhs) == 2 && len(x.Rhs) == 1 {
+				if u, ok := ast.Unparen(x.Rhs[0]).(*ast.UnaryExpr); ok && u.Op == token.ARROW {
+					recv2[u] = true
+				}
+			}
+		case *ast.ValueSpec:
+			if len(x.Names) == 2 && len(x.Values) == 1 {
+				if u, ok := ast.Unparen(x.Values[0]).(*ast.UnaryExpr); ok && u.Op == token.ARROW {
+					recv2[u] = true
+				}
+			}
 		case *ast.SendStmt:
 			sum.ChanUses++
-			sum.Unmodelled = append(sum.Unmodelled, "channel send")
+			if !leaveAlone[x] {
+				// ch <- v  ->  verifsim.Send(ch, v)
+				fc.insert(x.Chan.Pos(), "verifsim.Send(")
+				fc.replace(x.Arrow, x.Arrow+2, ",")
+				fc.insert(x.Value.End(), ")")
+				sum.ChanSites++
+			}
 		case *ast.UnaryExpr:
 			if x.Op == token.ARROW {
 				sum.ChanUses++
-				if c, ok := x.X.(*ast.CallExpr); !ok || !isTimeAfter(c) {
-					sum.Unmodelled = append(sum.Unmodelled, "channel receive")
+				if c, ok := x.X.(*ast.CallExpr); ok && isTimeAfter(c) {
+					break // <-time.After(d): the simulated clock hands out a channel that is ready
+				}
+				if !leaveAlone[x] {
+					// <-ch  ->  verifsim.Recv(ch)   /   v, ok := <-ch  ->  v, ok := verifsim.Recv2(ch)
+					fn := "verifsim.Recv("
+					if recv2[x] {
+						fn = "verifsim.Recv2("
+					}
+					fc.replace(x.OpPos, x.OpPos+2, fn)
+					fc.insert(x.X.End(), ")")
+					sum.ChanSites++
 				}
 			}
 		case *ast.CallExpr:
-			if sel, ok := isPkgCall(x.Fun, "time", "Sleep"); ok {
+			if id, ok := x.Fun.(*ast.Ident); ok {
+				if _, isB := info.Uses[id].(*types.Builtin); isB {
+					switch {
+					case id.Name == "make" && len(x.Args) >= 1 && isChanType(x.Args[0]):
+						// make(chan T, n)  ->  verifsim.RegChan(make(chan T, n))
+						fc.insert(x.Pos(), "verifsim.RegChan(")
+						fc.insert(x.End(), ")")
+						sum.ChanSites++
+					case id.Name == "close" && len(x.Args) == 1:
+						fc.replace(id.Pos(), id.End(), "verifsim.Close")
+						sum.ChanSites++
+					}
+				}
+			}
+			if sel, _, _, ok := isAnyPkgCall(x.Fun, map[string][]string{"time": {"AfterFunc", "NewTimer", "NewTicker", "Tick"}}); ok {
+				sum.Unmodelled = append(sum.Unmodelled, "time."+sel.Sel.Name)
+			}
+			if sel, name, _, ok := isAnyPkgCall(x.Fun, map[string][]string{"runtime": {"NumCPU", "GOMAXPROCS", "Gosched"}}); ok {
+				fc.replace(sel.Pos(), sel.End(), "verifsim."+name)
+				removed["runtime"]++
+				sum.ClockSites++
+			} else if sel, ok := isPkgCall(x.Fun, "time", "Sleep"); ok {
 				fc.replace(sel.Pos(), sel.End(), "verifsim.Sleep")
 				removed["time"]++
 				sum.ClockSites++
@@ -507,7 +673,20 @@ func rewriteFile(fc *fileCtx, pkg *types.Package) {
 					}
 					fc.replace(x.Pos(), x.Lparen+1, fn+amp+"("+recv+")"+tail)
 					sum.PoolSites++
-				case "WaitGroup.Wait", "Cond.Wait":
+				case "WaitGroup.Add", "WaitGroup.Done", "WaitGroup.Wait":
+					// X.Add(n) -> verifsim.WGAdd(&(X), n) ; X.Done() -> verifsim.WGDone(&(X)) ; X.Wait() -> verifsim.WGWait(&(X))
+					recv, isPtr := syncRecv(sel, srcOf(sel.X))
+					amp := "&"
+					if isPtr {
+						amp = ""
+					}
+					tail := ""
+					if m == "WaitGroup.Add" {
+						tail = ", "
+					}
+					fc.replace(x.Pos(), x.Lparen+1, "verifsim.WG"+sel.Sel.Name+"("+amp+"("+recv+")"+tail)
+					sum.WGSites++
+				case "Cond.Wait":
 					sum.Unmodelled = append(sum.Unmodelled, m)
 				}
 			} else if sel, ok := x.Fun.(*ast.SelectorExpr); ok && sel.Sel.Name == "MapKeys" && len(x.Args) == 0 {
